@@ -15,7 +15,10 @@ CFG = dict(
          "and trailing bytes; 'forgeries' cases by re-created exports (Ts, BlTxID/BlRoot, metadata, version, Eh+entries, "
          "ID, PrevAlh, BlRoot); every fifth case runs pkg/database instances (1 primary with syncAcks 1..2, 1..3 replica "
          "databases) through ExportTxByID with honest/stale/forged replica states, ReplicateTx, AllowCommitUpto(id, alh), "
-         "DiscardPrecommittedTxsSince and reopenings. After every step the model must reproduce acceptance and the "
+         "DiscardPrecommittedTxsSince and reopenings; every tenth case runs a SYNCED replica store (Synced=true, sync "
+         "frequency 4h, external allowance) with explicit Sync() steps so that committed < durably precommitted < "
+         "precommitted in memory, and checks after every step that PrecommittedAlh() (what CurrentState / ReplicaState "
+         "report to a primary) is the last transaction an explicit Sync() made durable. After every step the model must reproduce acceptance and the "
          "(committed id, committed Alh, precommitted id, precommitted Alh) of the store; a case is non-trivial when it has "
          "at least 3 (store) / 5 (database) steps; distinct by the full step list",
     trusted_base=COMMON_TB + [
@@ -24,8 +27,8 @@ CFG = dict(
         "Close/Open reload of the precommitted backlog, TxHeader.Alh/innerHash, entry digests, htree/aht roots as the "
         "reference Merkle hash (tied by C08); pkg/database ExportTxByID validation, mayUpdateReplicaState, replica "
         "AllowCommitUpto. NOT modelled: pkg/replication's gRPC loop (only as the schedules it can produce), stream "
-        "transport, indexing, value logs, synced stores (the harness opens stores with Synced=false so that a durable "
-        "precommit coincides with the in-memory one), the primary's own commit path (the primary's records are taken "
+        "transport, indexing, value logs, the background syncer (stores are opened with Synced=false, or with Synced=true "
+        "and explicit Sync() calls only), the primary's own commit path (the primary's records are taken "
         "as observed and assumed `primary_valid`)",
         "a ReplicateTx call that waits for its predecessor (future id) is run under a 250 ms context and modelled as an "
         "error without effect; concurrent batches are compared by their final state only (and only while no discard "
@@ -42,6 +45,10 @@ CFG = dict(
         "the refutation witnesses of altered_rejected (coq/Repl/Witness.v) use the executable SHA-256 over Coq's primitive 63-bit integers "
         "(kernel primitives PrimInt63.*, listed by Print Assumptions); they are compiled with Properties/C07.v but the "
         "six theorems restated there are closed under the global context",
+        "synced stores: the durable-precommit frontier and the deferred allowance are kept by an executable wrapper in "
+        "coq/Tie/C07.v (CSynced: deliver / Sync / allow / discard) around the model's store; the theorems, in particular "
+        "sync-ack safety (v), are about the state a replica REPORTS and about the unsynced store -- that the report is the "
+        "durable frontier is checked by this wrapper and by the harness oracle, not proved",
         "SHA-256 of the model = crypto/sha256: checked by every Alh comparison of this run (and by C08's cases)",
     ],
     assumptions=[
